@@ -1,5 +1,6 @@
 (* C20 — an agent runs one keep-alive loop that can always be stopped and restarted. *)
 From VP Require Import Base Life LifeProofs.
+From VP Require Claim ClaimProofs.
 From VPgen Require Import Facts.
 
 Theorem c20_one_loop : forall ops, LInv (lrun true l0 ops) /\ (l_loops (lrun true l0 ops) <= 1)%nat.
@@ -48,3 +49,36 @@ Theorem c20_no_flag_refuted :
   snd (lstep false (lrun false l0 [LStart SOk]) (LStart SOk)) = RStartOk /\
   snd (lstep true (lrun true l0 [LStart SOk]) (LStart SOk)) = RAlreadyStarted.
 Proof. exact no_flag_refuted. Qed.
+
+(* overlapping Start calls.  Start tests and sets [started] in one stretch holding the agent's
+   mutex and gives the claim back when the start fails (structural facts regenerated from
+   agent/agent.go on every run); it registers with the pool outside the mutex.  For that shape —
+   any number of Start and Stop calls, their steps interleaved in any order, the pool refusing
+   any of the registrations — there is never more than one keep-alive loop and never a loop
+   beside a start in flight; a Start arriving while the agent is claimed or running is refused,
+   one arriving otherwise becomes the loop once the pool accepts it.  Testing and setting in two
+   separate stretches is refuted: two loops, and one Stop leaves one running. *)
+Theorem c20_start_is_test_and_set :
+  agent_start_test_and_set_atomic = true /\ agent_start_gives_claim_back = true.
+Proof. vm_compute. auto. Qed.
+Theorem c20_one_loop_under_overlapping_starts : forall ops,
+  let s := Claim.crun true Claim.cst0 ops in
+  (Claim.c_loops s <= 1)%nat /\ (Claim.c_loops s = 1%nat -> Claim.claimers s = []) /\
+  (Claim.c_started s = false -> Claim.c_loops s = 0%nat).
+Proof. exact ClaimProofs.one_loop. Qed.
+Print Assumptions c20_one_loop_under_overlapping_starts.
+Theorem c20_overlapping_start_outcomes : forall ops t,
+  let s := Claim.crun true Claim.cst0 ops in
+  Claim.cphase_of s t = Claim.CIdle ->
+  exists s1, Claim.cstep true s (Claim.KEnter t) = Some s1 /\
+    (Claim.c_started s = true -> Claim.cphase_of s1 t = Claim.CRefused /\ Claim.c_loops s1 = Claim.c_loops s) /\
+    (Claim.c_started s = false -> Claim.cphase_of s1 t = Claim.CClaimed /\
+        exists s2, Claim.cstep true s1 (Claim.KOk t) = Some s2 /\ Claim.c_loops s2 = 1%nat /\
+                   Claim.cphase_of s2 t = Claim.CRunning).
+Proof. exact ClaimProofs.start_outcomes. Qed.
+Theorem c20_split_test_and_set_refuted :
+  Claim.c_loops (Claim.crun false Claim.cst0 ClaimProofs.split_trace) = 2%nat /\
+  Claim.c_loops (Claim.crun false Claim.cst0 (ClaimProofs.split_trace ++ [Claim.KStop])) = 1%nat /\
+  Claim.c_loops (Claim.crun true Claim.cst0 ClaimProofs.split_trace) = 1%nat /\
+  Claim.cphase_of (Claim.crun true Claim.cst0 ClaimProofs.split_trace) 2%N = Claim.CRefused.
+Proof. exact ClaimProofs.split_start_refuted. Qed.
